@@ -237,6 +237,12 @@ def expr_features(e, out: set, ctx="value"):
         v, (sg, w) = e[2], e[3]
         if v >= (1 << (w - 1 if sg else w)):
             out.add("big_literal")
+        if str(e[1]).startswith("sizeof"):
+            out.add("sizeof_typed_int")       # the code types sizeof st32, C gives size_t (64 bit unsigned)
+    elif k == "load":
+        # ((T)mem_load_s<w>(EA)): the loaded value is signed; widened into an unsigned T it is zero-extended by the code
+        if e[3] == "s" and not e[2][0] and e[2][1] > e[4]:
+            out.add("signed_widen_to_unsigned")
     elif k == "cast":
         expr_features(e[3], out)
         if _conv_risky(ctype(e[3]), e[2]):
